@@ -819,6 +819,10 @@ class Expander:
             it = self._inline_call(t2, caller, force=True, effects=effects)
             if it is not None:
                 return self.force_inline(it, caller, depth - 1, effects)
+        if t2[0] == "item" and len(t2) == 3 and isinstance(t2[2], int) and isinstance(t2[1], tuple) and t2[1] and t2[1][0] == "tuple" \
+                and -len(t2[1][1]) <= t2[2] < len(t2[1][1]):
+            # `a, b = helper(...)` with the helper's returned tuple in hand: the component
+            return t2[1][1][t2[2]]
         return t2
 
     def _force_inline_any(self, x, caller: Func, depth: int, effects: bool = False):
